@@ -284,7 +284,9 @@ def do_signedint(case, ob, site):
 def do_format(case, ob, site):
     f, b = case['f'], case['b']
     fmt = '%s%d' % (f, b)
-    u = SymInt(z3.BitVec('u', b), False)
+    # the number in an unsigned format names a width, it does not limit the value (documented: 'a' with 'x3' is 10): values up
+    # to three bits wider than named
+    u = SymInt(z3.BitVec('u', b if f == 's' else b + 3), False)
     ex = lambda m: {'value': m.eval(u.t, model_completion=True).as_long()}
     with henv():
         paths = explore(lambda: H.formatted_str_to_val(H.val_to_formatted_str(u, fmt), fmt))
@@ -329,11 +331,17 @@ def do_twos(case, ob, site):
 
     def body():
         enc = libutils.twos_comp_repr(v, b)
-        return enc, libutils.rev_twos_comp_repr(enc, b)
+        try:
+            return enc, libutils.rev_twos_comp_repr(enc, b)
+        except pyrtl.PyrtlError:
+            return enc, None
     paths = explore(body)
     lo, hi = -(1 << (b - 1)), (1 << (b - 1)) - 1
     for p in paths:
-        if p.exc is None:
+        if p.exc is None and p.result[1] is None:
+            # mutual inverses on the accepted domain: what twos_comp_repr produces, rev_twos_comp_repr accepts
+            ob.prove('twos(b=%d):rev-accepts-every-encoding-repr-produces' % b, z3.Not(p.cond()), [], None, site=site + ':rev-refuses', extract=ex)
+        elif p.exc is None:
             enc, dec = p.result
             ob.prove('twos(b=%d):rev(repr(v))=v' % b, to_cond(dec == v), p.pc, None, site=site + ':roundtrip', extract=ex)
             ob.prove('twos(b=%d):encoding' % b, to_bv(enc, b + 4) == (to_bv(v, b + 4) & ((1 << b) - 1)), p.pc, None, site=site + ':encoding', extract=ex)
@@ -599,9 +607,12 @@ def replay(cex):
                 return got != val, 'twos_comp_repr(rev_twos_comp_repr(%d, %d)) = %r' % (val, b, got)
             try:
                 enc = libutils.twos_comp_repr(val, b)
-                dec = libutils.rev_twos_comp_repr(enc, b)
             except pyrtl.PyrtlError as e:
                 return False, 'rejected: %r' % (e,)
+            try:
+                dec = libutils.rev_twos_comp_repr(enc, b)
+            except pyrtl.PyrtlError as e:
+                return True, 'twos_comp_repr(%d, %d) = %d is accepted, but rev_twos_comp_repr(%d, %d) raises %r' % (val, b, enc, enc, b, e)
             lo, hi = -(1 << (b - 1)), (1 << (b - 1)) - 1
             bad = dec != val or enc != (val & ((1 << b) - 1)) or not (lo <= val <= hi)
             return bad, 'twos_comp_repr(%d, %d) = %d; rev = %d; accepted domain [%d, %d]' % (val, b, enc, dec, lo, hi)
